@@ -96,7 +96,7 @@ fn c03_o4p_signed_announce_request() {
 //@ cap: 900
 //@ also: C03 C05
 //@ desc: malformed key lengths are rejected without panic and without any verification (key length in {0, 31, 33}) on both the request and the response path
-//@ bounds: three key lengths (symbolic choice), concrete contents, well-formed 64-byte signature; unwind 130
+//@ bounds: key lengths 0, 31, 33 (one concrete call each), concrete contents, well-formed 64-byte signature, request/response path symbolic; unwind 130
 //@ stubs: verify -> oracle (never reached); system_time -> symbolic
 //@ functions: SignedAnnounce::from_dht_message, VerifyingKey::try_from (length check)
 #[kani::proof]
@@ -106,18 +106,21 @@ fn c03_o4p_signed_announce_request() {
 fn c02_o2b_signed_announce_key_lengths() {
     oracle::arm(0, true);
     wall::set(0);
-    let which: u8 = kani::any();
-    kani::assume(which < 3);
     let kbuf = [1u8; 33];
     let sbuf = [2u8; 64];
-    let klen = if which == 0 { 0 } else if which == 1 { 31 } else { 33 };
     let req: bool = kani::any();
-    let r = SignedAnnounce::from_dht_message(&Id::from([0u8; 20]), &kbuf[..klen], 0, &sbuf, req);
-    assert!(r.is_err(), "C02.O2b malformed key or signature length rejected");
+    // concrete lengths, one call each: a symbolic length would make CBMC run the point
+    // decompression under an infeasible guard
+    let r0 = SignedAnnounce::from_dht_message(&Id::from([0u8; 20]), &kbuf[..0], 0, &sbuf, req);
+    let r1 = SignedAnnounce::from_dht_message(&Id::from([0u8; 20]), &kbuf[..31], 0, &sbuf, req);
+    let r2 = SignedAnnounce::from_dht_message(&Id::from([0u8; 20]), &kbuf[..33], 0, &sbuf, req);
+    assert!(r0.is_err() && r1.is_err() && r2.is_err(), "C02.O2b malformed key or signature length rejected");
     assert!(oracle::asked() == 0, "C02.O2b nothing verified for malformed lengths");
-    kani::cover!(which == 2 && req);
-    kani::cover!(which == 0 && !req);
-    std::mem::forget(r);
+    kani::cover!(req);
+    kani::cover!(!req);
+    std::mem::forget(r0);
+    std::mem::forget(r1);
+    std::mem::forget(r2);
 }
 
 //@ ob: C02.O2c
@@ -125,7 +128,7 @@ fn c02_o2b_signed_announce_key_lengths() {
 //@ cap: 900
 //@ also: C03 C05
 //@ desc: malformed signature lengths are rejected without panic and without any verification (signature length in {0, 63, 65}) with a well-formed key, on both the request and the response path
-//@ bounds: three signature lengths (symbolic choice), concrete valid key; unwind 130 (concrete point decompression)
+//@ bounds: signature lengths 0, 63, 65 (one concrete call each), concrete valid key, request/response path symbolic; unwind 130 (concrete point decompression)
 //@ stubs: verify -> oracle (never reached); system_time -> symbolic
 //@ functions: SignedAnnounce::from_dht_message, Signature::from_slice
 #[kani::proof]
@@ -135,17 +138,18 @@ fn c02_o2b_signed_announce_key_lengths() {
 fn c02_o2c_signed_announce_sig_lengths() {
     oracle::arm(0, true);
     wall::set(0);
-    let which: u8 = kani::any();
-    kani::assume(which < 3);
     let sbuf = [2u8; 65];
-    let slen = if which == 0 { 0 } else if which == 1 { 63 } else { 65 };
     let req: bool = kani::any();
-    let r = SignedAnnounce::from_dht_message(&Id::from([0u8; 20]), &oracle::K1, 0, &sbuf[..slen], req);
-    assert!(r.is_err(), "C02.O2b malformed key or signature length rejected");
+    let r0 = SignedAnnounce::from_dht_message(&Id::from([0u8; 20]), &oracle::K1, 0, &sbuf[..0], req);
+    let r1 = SignedAnnounce::from_dht_message(&Id::from([0u8; 20]), &oracle::K1, 0, &sbuf[..63], req);
+    let r2 = SignedAnnounce::from_dht_message(&Id::from([0u8; 20]), &oracle::K1, 0, &sbuf[..65], req);
+    assert!(r0.is_err() && r1.is_err() && r2.is_err(), "C02.O2b malformed key or signature length rejected");
     assert!(oracle::asked() == 0, "C02.O2b nothing verified for malformed lengths");
-    kani::cover!(which == 2 && req);
-    kani::cover!(which == 0 && !req);
-    std::mem::forget(r);
+    kani::cover!(req);
+    kani::cover!(!req);
+    std::mem::forget(r0);
+    std::mem::forget(r1);
+    std::mem::forget(r2);
 }
 
 /// Contract of `from_dht_request` / `from_dht_response` (established by C03.O4p / C02.O2 on the
